@@ -69,14 +69,25 @@ class LinModel(Model):
             return Sym(('GUARD', 'OPAQUE@%s' % fr.f.loc(n)))
         return self.lin_compare(it, fr, n, op, la, lb)
 
+    @staticmethod
+    def wrap_const(fr, n, r):
+        """a constant result of unsigned arithmetic is reduced modulo 2^width (npos + 1 == 0): symbolic forms are left to the rules' own
+        range obligations, constants must not silently leave the type"""
+        if r is not None and r.is_const():
+            from bsv.dtab import INT_TYPES, base_type
+            info = INT_TYPES.get(base_type(fr.f.type(n)))
+            if info is not None and not info[1] and info[0] > 1 and not (0 <= r.c < (1 << info[0])):
+                return Lin.of(r.c % (1 << info[0]))
+        return r
+
     def arith(self, it, fr, n, op, a, b):
         la, lb = Lin.of(a), Lin.of(b)
         if la is None or lb is None:
             return TOP
         if op == '+':
-            return la + lb
+            return self.wrap_const(fr, n, la + lb)
         if op == '-':
-            return la - lb
+            return self.wrap_const(fr, n, la - lb)
         if op == '*' and (la.is_const() or lb.is_const()):
             return lb.scale(la.c) if la.is_const() else la.scale(lb.c)
         if op == '%' and lb.is_const() and lb.c > 0:
